@@ -10,6 +10,19 @@ use std::collections::BTreeSet;
 use vcommon::{hash64, Ctx, Fail, Obs, Tier};
 
 pub const SUB: &str = "interp-vs-compiled";
+pub const SUB_CELLS: &str = "operator-cells";
+
+fn filler_prog() -> crate::ir::Prog {
+    use crate::ir::*;
+    Prog {
+        nodes: vec![
+            Node { op: Op::SrcStream { src: 0, ty: Ty::I }, ins: vec![] },
+            Node { op: Op::ForEach { sink: 0 }, ins: vec![Edge { node: 0, port: 0 }] },
+        ],
+        sources: vec![Ty::I],
+        stmt_order: None,
+    }
+}
 
 pub fn nontrivial_c21(p: &Prepared, si: usize) -> bool {
     let has_static = p.case.prog.nodes.iter().any(|n| n.op.has_static_state());
@@ -35,15 +48,48 @@ hash of (program IR, history)."
         ctx.check_all::<SemCase, _, _>(SUB, Vec::<SemCase>::new(), |case: &SemCase, obs: &mut Obs| {
             run_single("C21-replay", case, obs)
         });
+        ctx.check_all::<SemCase, _, _>(SUB_CELLS, Vec::<SemCase>::new(), |case: &SemCase, obs: &mut Obs| {
+            run_single("C21-replay", case, obs)
+        });
         replay_probe(ctx, "C21-replay");
         return;
     }
     let tier = ctx.tier();
-    let cfg = GenCfg::default();
+    let cfg = GenCfg { max_ops: tier.pick(8, 12), ..GenCfg::default() };
     let n_hist = tier.pick(8, 32);
+    // (1) every (operator, persistence) cell in isolation, pull side and behind tee()
+    {
+        let mut rng0 = Rng::new(ctx.seed_for(SUB_CELLS) ^ 0x5151);
+        let mut cells = crate::gen::gen_cell_progs(&mut rng0);
+        cells.reverse();
+        let labels: std::cell::RefCell<std::collections::BTreeMap<u64, String>> = Default::default();
+        let n_cells = cells.len();
+        let cell_hist = tier.pick(6, 24);
+        let floor_before = ctx.floor;
+        drive(
+            ctx,
+            Drive { extra_prefix: "cells_", sub: SUB_CELLS, batch: format!("C21-{}-cells", tier.name()), n_prog: n_cells, chunk: 320, floor: 0 },
+            |rng, _cov| match cells.pop() {
+                Some((prog, label)) => {
+                    labels.borrow_mut().insert(hash64(&prog), label);
+                    let scripts = (0..cell_hist)
+                        .map(|_| script_of_history(&crate::gen::gen_history_dense(rng, &prog.sources), Run::Tick))
+                        .collect();
+                    SemCase { prog, scripts, tags: vec![] }
+                }
+                // the list is exhausted (duplicates were skipped): hand out a trivial filler that is
+                // de-duplicated immediately
+                None => SemCase { prog: filler_prog(), scripts: vec![], tags: vec![] },
+            },
+            nontrivial_c21,
+            |p, _si| vec![format!("cell:{}", labels.borrow().get(&hash64(&p.case.prog)).cloned().unwrap_or_default())],
+        );
+        ctx.floor = floor_before;
+    }
+    // (2) random programs
     drive(
         ctx,
-        Drive { sub: SUB, batch: format!("C21-{}", tier.name()), n_prog: tier.pick(64, 1500), chunk: tier.pick(64, 250), floor: tier.pick(40, 1000) },
+        Drive { extra_prefix: "", sub: SUB, batch: format!("C21-{}", tier.name()), n_prog: tier.pick(64, 1500), chunk: tier.pick(64, 250), floor: tier.pick(40, 1000) },
         |rng, cov| {
             let prog = gen_prog(rng, cov, &cfg);
             let scripts = (0..n_hist)
@@ -67,6 +113,8 @@ hash of (program IR, history)."
 }
 
 pub struct Drive {
+    /// prefix for the keys of the evidence extras ("" for the main sub-check)
+    pub extra_prefix: &'static str,
     pub sub: &'static str,
     pub batch: String,
     pub n_prog: usize,
@@ -142,13 +190,14 @@ pub fn drive(
         }
     }
     report_failures(ctx, d.sub, &d.batch, all_failures, tier);
-    if ctx.prop() == "C21" {
+    if ctx.prop() == "C21" && d.extra_prefix.is_empty() {
         run_probes(ctx, &format!("{}-probes", d.batch), &mut stats);
     }
-    ctx.extra.insert("coverage_table".into(), cov.to_json());
-    ctx.extra.insert("nontrivial_by_class".into(), json!(nt_by_class));
-    ctx.extra.insert("pipeline".into(), stats_json(&stats));
-    ctx.extra.insert("programs_generated".into(), json!(generated));
+    let px = d.extra_prefix;
+    ctx.extra.insert(format!("{px}coverage_table"), cov.to_json());
+    ctx.extra.insert(format!("{px}nontrivial_by_class"), json!(nt_by_class));
+    ctx.extra.insert(format!("{px}pipeline"), stats_json(&stats));
+    ctx.extra.insert(format!("{px}programs_generated"), json!(generated));
     conclude(ctx, &stats, generated);
 }
 
